@@ -67,10 +67,8 @@ func printSequenceDiagramStatements(m *sysl.Module, statements []*sysl.Statement
 				*sequencePairs = append(*sequencePairs, pair)
 				result += callStatement(appName, nextep, nextapp, indent)
 				previous := appName
-				out, err := generateSequenceDiagramHelper(m, nextapp, nextep, previous, indent, sequencePairs, false)
-				if err != nil {
-					panic("Error in generating sequence diagram; check if app names or endpoints are correct")
-				}
+				// an error means that the target is not defined in the model: the call is drawn and not followed
+				out, _ := generateSequenceDiagramHelper(m, nextapp, nextep, previous, indent, sequencePairs, false)
 				result += out
 			}
 		case *sysl.Statement_Ret:
